@@ -40,6 +40,9 @@ CONSTANTS Tracks,        \* set of track names (strings)
           FixDropBound,    \* 34c3a50: seqCounters.add bounds nrToDrop by the fill
           FixDeriveGuards, \* 3d9bf84: deriveAndSetBitrates / deriveAndSetFrameRates skip tracks without segments
           FixLateTrack,    \* cdab72e: a buffer created after start bumps _nrTracks; every Representation is checked
+          FixStoreOnAccept, \* b759c7a: a media segment is written to a temporary file and renamed to <n> when the upload has been
+                           \* accepted; a refused upload leaves nothing (before, it had created / truncated <track>/<n> when its
+                           \* first fragment arrived)
           FixDeleteOnAccept \* 59900e3: the handler removes <n - maxNrBufSegs> only when the upload has been accepted, not when its
                            \* first fragment arrives (a refused upload deleted a segment that was listed afterwards)
 VARIABLES upl,      \* the chosen element of UploadSets
@@ -207,10 +210,10 @@ Process(t) ==
              \* record reaches the channel goroutine: a no-op on buffers, counters and the MPD.  If a first fragment had been
              \* taken, the handler has created <track>/<n> (and made room for it) - storage only.
              /\ UNCHANGED <<bufs, ctr, started, nrTracks, latest, genWindow, masterDur, mpd, mpdReps, panic, why, listedBad>>
-             /\ files' = IF ~IsLateAbort(s) THEN files
+             /\ files' = IF ~IsLateAbort(s) \/ FixStoreOnAccept THEN files
                           ELSE [files EXCEPT ![t] = IF masterDur # 0 /\ ~FixDeleteOnAccept
                                                     THEN (@ \cup {NrOf(s)}) \ {NrOf(s) - MaxBufSegs} ELSE @ \cup {NrOf(s)}]
-             /\ post' = IF IsLateAbort(s) /\ masterDur # 0 THEN post \cup {t} ELSE post
+             /\ post' = IF IsLateAbort(s) /\ masterDur # 0 /\ ~FixStoreOnAccept THEN post \cup {t} ELSE post
         ELSE
         LET files1 == [files EXCEPT ![t] = IF masterDur # 0 THEN (@ \cup {s}) \ {s - MaxBufSegs} ELSE @ \cup {s}]
             b0 == IF ~bufs[t].made THEN NewBuf(genWindow) ELSE bufs[t]
